@@ -1163,7 +1163,7 @@ func (g *ArtGen) block() {
 			// a block with text but no words
 			g.L.Kinds["separator"]++
 			g.lastTxt = -1 // a text block without any token: C08 cannot observe whether it is retained
-			g.w([]string{"<p>* * *</p>", "<p>&mdash; &mdash;</p>", "<div>&bull;</div>", "<p>***</p>", "<hr><p>~</p>"}[g.r.Intn(5)] + "\n")
+			g.w([]string{"<p>* * *</p>", "<p>&mdash; &mdash;</p>", "<div>&bull;</div>", "<p>***</p>", "<hr><p>~</p>", `<svg width="1" height="1"><html></html></svg><p>~</p>`, `<math><html></html></math><p>*</p>`}[g.r.Intn(7)] + "\n")
 		}},
 		{2, p.Headings, func() {
 			g.L.Kinds["heading"]++
